@@ -21,6 +21,8 @@ def run(rep, tier):
     H.r_evt_shape(rep, hc)
     H.r_evt_prov(rep, hc)
     H.r_crossed_table(rep, hc)
+    rep.rule("R-EVT-ONE", "the direction filter is applied to (previous value, current value) of the same event function in the order of integration (symbolic values of the arguments of the sign-change test)")
+    H.r_evt_args(rep, hc)
     H.r_evt_sort(rep, hc)
     H.r_term(rep, hc)
     rep.explanation = ("Structural + finite-domain: shapes, provenance of reported event states, complete truth table of the direction filter, "
